@@ -287,38 +287,75 @@ def run_v(prop, u, results):
 
 
 # ----------------------------------------------------------------------------- PY cross-checks (not counted)
-def run_py(prop, u, results):
+def run_py(prop, u, results, native_replay=True):
     import crosschecks
     ur = UnitResult(u)
     results[u["id"]] = ur
     t0 = time.time()
     try:
-        ok, msg, n = getattr(crosschecks, u["func"])()
+        facts, n = getattr(crosschecks, u["func"])()
     except Exception as e:  # a broken cross-check is undecided, never an alarm
-        ok, msg, n = None, "cross-check crashed: %r" % (e,), 0
-    ur.time_s = time.time() - t0
-    ur.backend = "python3/sympy (cross-check of a trusted mathematical fact; not counted as discharged)"
+        facts, n = [(None, "cross-check crashed: %r" % (e,), "crash", None)], 0
+    ur.backend = "python3 (cross-check of a trusted mathematical fact about literals read from the source; not counted as discharged)"
     ur.obligations = 0
     ur.discharged = 0
-    ur.detail["crosscheck"] = msg
+    ur.detail["crosscheck"] = [{"fact": m, "ok": ok, "about": about} for ok, m, about, _ in facts]
     ur.detail["facts_checked"] = n
-    if ok is True:
-        ur.status = "discharged"
-    elif ok is False:
+    ur.samples = [{"description": m, "function": about, "category": "crosscheck", "location": u.get("where", "")} for ok, m, about, _ in facts if ok][:3]
+    bad = [f for f in facts if f[0] is False]
+    und = [f for f in facts if f[0] is None]
+    if bad:
         ur.status = "violation"
-        ur.failed = [{"description": msg, "function": u["fns"][0] if u["fns"] else "", "category": "crosscheck",
-                      "location": u.get("where", "")}]
-        ur.reason = msg
+        ur.failed = [{"description": m, "function": about, "category": "crosscheck", "location": u.get("where", "")} for ok, m, about, _ in bad]
+        ur.reason = "; ".join(m for _, m, _, _ in bad)
         d = os.path.join(REPLAY, prop)
         os.makedirs(d, exist_ok=True)
         path = os.path.join(d, u["id"] + ".replay.json")
-        json.dump({"property": prop, "unit": u["id"], "engine": "PY", "failed_obligations": ur.failed,
-                   "native_outcome": "reproduced", "note": msg, "repo_head": repo_head()}, open(path, "w"), indent=1)
+        recs = []
+        allrep = True
+        for ok, m, about, rep in bad:
+            rec = {"failed_obligation": m, "about": about, "native_outcome": "unavailable"}
+            if rep and native_replay:
+                o, out = native_test(rep["module"], rep["test_name"], rep["test_text"])
+                rec.update(native_outcome=o, native_test=rep["test_text"], inputs=rep.get("inputs"), native_output=out[-2500:])
+            elif rep:
+                rec.update(native_test=rep["test_text"], inputs=rep.get("inputs"))
+            if rec["native_outcome"] != "reproduced":
+                allrep = False
+            recs.append(rec)
+        json.dump({"property": prop, "unit": u["id"], "engine": "PY", "failed_obligations": ur.failed, "replays": recs,
+                   "repo_head": repo_head()}, open(path, "w"), indent=1)
         ur.replay_path = path
-        ur.native = "reproduced"
-    else:
+        ur.native = "reproduced" if allrep else "unavailable"
+    elif und:
         ur.status = "undecided"
-        ur.reason = msg
+        ur.reason = "; ".join(m for _, m, _, _ in und)
+    else:
+        ur.status = "discharged"
+    ur.time_s = time.time() - t0
+
+
+def native_test(module, test_name, test_text):
+    """Run a hand-generated #[test] natively inside the real crate through the playback include of `module`."""
+    d = ensure_playback_stubs()
+    clear_playback()
+    open(os.path.join(d, module + ".rs"), "w").write(test_text + "\n")
+    env = K.env()
+    env["CARGO_TARGET_DIR"] = os.path.join(BUILD, "kani-playback")
+    cmd = ["cargo", "kani", "playback", "-Z", "concrete-playback", "-Z", "function-contracts", "-Z", "stubbing",
+           "--lib", "--features", K.FEATURES, "--", test_name]
+    try:
+        p = subprocess.run(cmd, cwd=K.CRATE, env=env, stdout=subprocess.PIPE, stderr=subprocess.STDOUT, text=True, timeout=3600)
+        out = p.stdout
+    except subprocess.TimeoutExpired:
+        out = "[runner] native test timed out"
+    finally:
+        clear_playback()
+    if re.search(r"test .*%s \.\.\. FAILED" % test_name, out):
+        return "reproduced", out
+    if re.search(r"test .*%s \.\.\. ok" % test_name, out):
+        return "not-reproduced", out
+    return "unavailable", out
 
 
 # ----------------------------------------------------------------------------- evidence
@@ -427,7 +464,7 @@ def check(prop, tier, only_units, jobs, native_replay=True):
         if u["engine"] == "V":
             run_v(prop, u, results)
         elif u["engine"] == "PY":
-            run_py(prop, u, results)
+            run_py(prop, u, results, native_replay)
     # verdict
     kf = [k for k in known_findings() if k["prop"] == prop]
     viol_lines, known_hits, undecided = [], [], []
